@@ -15,6 +15,32 @@ CHECKS = {
         mandatory=dict(quick=["sidepot", "splitpot", "bust", "leave_with_chips", "ante", "short_deck"]),
         assumptions=ASSUME_COMMON + ["participants of a running hand do not leave mid-hand (caller precondition from PlayersLeave's documented uses)", "bet sizes are legal (pokerface does not validate them)"],
     ),
+    "C03": dict(
+        parts=[
+            dict(pkg="table", run="^TestC03$",
+                 quick=dict(shards=2, checks=4000, timeout=240),
+                 thorough=dict(shards=16, checks=40000, timeout=1500)),
+            dict(pkg="table", run="^TestC03Hands$",
+                 quick=dict(shards=2, checks=150, timeout=240),
+                 thorough=dict(shards=8, checks=2500, timeout=1500)),
+        ],
+        rule="(1) stateful sequences of <=30 membership operations (create-with-players, reserve fixed/random/taken/out-of-range/full, re-buy, join, leave one/several/unknown/mixed/duplicate, batch update valid/invalid) on one real TableEngine, seat counts 2..10; (2) the same predicate at every quiescent point of real table histories (after hands); oracle = three-way agreement seat map / player list / seat manager + reference seat model + error => table and seat manager byte-identical; non-trivial = a failing operation after a successful one, or re-use of a vacated seat; distinct = distinct op-class traces",
+        mandatory=dict(quick=["err_full", "err_taken", "err_dup_batch", "err_unknown_leave", "err_mixed_leave", "err_range", "err_batch_overflow", "reuse_vacated", "random_seat", "after_hands", "N2", "N10"]),
+        assumptions=ASSUME_COMMON + ["the engine may seat a reserved player in by itself (auto-join); the model only demands seated-in for players whose join succeeded"],
+    ),
+    "C09": dict(
+        parts=[
+            dict(pkg="gate", run="^TestC09$",
+                 quick=dict(shards=4, checks=2500, timeout=240),
+                 thorough=dict(shards=16, checks=40000, timeout=1500)),
+            dict(pkg="gate", run="^TestC09Timeouts$",
+                 quick=dict(shards=1, checks=1, timeout=240),
+                 thorough=dict(shards=4, checks=1, timeout=1500)),
+        ],
+        rule="pre-drawn scenarios on the public open_game_manager API: 1..4 set-ups of 1..10 participants with fresh game counts, ready signals in every order/subset with repetitions and unknown ids, re-set-up with signals still pending or unprocessed, rebuild from GetState(), and (timeout leg, executed side by side) real 1-2 s timeout expiry; oracle = firing log obligations (at most once per set-up, not before the last missing signal unless the timeout elapsed, reported game count/participants/all ready, superseded set-up silent, unknown rejected without state change); non-trivial = >=2 participants and (duplicate | unknown | superseding set-up with pending signals | timeout firing | rebuild); distinct = distinct op sequences",
+        mandatory=dict(quick=["dup", "unknown", "supersede_pending", "timeout_fire", "rebuild", "all_ready_fire", "parts_1", "parts_10"]),
+        assumptions=["firing is looked for during a bounded window (30 ms grace after the last operation, 1.5 s margin around timeouts); monotonic time only as a lower bound"],
+    ),
     "C04": dict(
         parts=[
             dict(pkg="seat", run="^TestC04Rapid$",
@@ -45,5 +71,14 @@ LEVELS = {
         design_ref="DESIGN.md section 3 C04", technique="stateful property-based testing (rapid) + small-scope exhaustive state enumeration of the real implementation with a relational oracle",
         note="The oracle is written from the property statement; random seat and random initial button are only sampled. Two recorded findings are excluded from further exploration (known_findings.txt)."),
 }
+
+LEVELS["C03"] = dict(
+    text="Stateful generated membership histories against a reference seat model with a three-way consistency predicate after every operation and a byte-identical all-or-nothing check after every error; repeated at the quiescent points of real multi-hand histories.",
+    design_ref="DESIGN.md section 3 C03", technique="stateful property-based testing (rapid) with a reference model and state-unchanged-on-error oracle",
+    note="Sequential only (concurrency is C16). One recorded finding (UpdateTablePlayers leave-then-failing-join) is excluded from the campaign after one pinned demonstration per process.")
+LEVELS["C09"] = dict(
+    text="Generated gate scenarios judged against the firing-log obligations of the statement; thousands of orders/subsets/repetitions/superseding set-ups per run plus a side-by-side batch with real timeout expiry. Schedule-dependent defects are sampled, not enumerated.",
+    design_ref="DESIGN.md section 3 C09", technique="property-based testing (rapid) over pre-drawn operation scenarios with a history (firing log) oracle",
+    note="'Never fires twice / never fires' are bounded observation windows; concurrent callers are not part of this check.")
 
 NOT_APPLICABLE = []
